@@ -101,9 +101,9 @@ def _ancestors_of(n, stop):
 
 
 def run(ck):
-    ck.rule("R1", "the access of a mapped section/segment depends on the header's write flag", floor=3)
-    ck.rule("R2", "an import slot receives the stub address of its own import", floor=2)
-    ck.rule("R3", "section/segment bytes are mapped at the right address with zero padding", floor=3)
+    ck.rule("R1", "the access of a mapped section/segment depends on the header's write flag", floor=2)
+    ck.rule("R2", "an import slot receives the stub address of its own import", floor=1)
+    ck.rule("R3", "section/segment bytes are mapped at the right address with zero padding", floor=2)
 
     pm = ck.repo.mod(PE)
     fn = pm.func("vm_load_pe")
